@@ -629,6 +629,7 @@ Proof.
   all: try (inversion H; subst; split; [reflexivity|lia]).
   all: rd_any H; take_all Hr; cbn [omap].
   all: try (inversion H; subst; reflexivity).
+  all: try (inversion H; subst; clear H; pw; split; [f_equal; lia|lia]).
   all: try (int64v_step Hr; inversion H; subst; clear H; destruct EI as [-> EI]; pw; split; [f_equal; lia|lia]).
 Qed.
 
@@ -677,6 +678,7 @@ Proof.
   all: try (inversion H; subst; split; [reflexivity|lia]).
   all: rd_any H; take_all Hr; cbn [omap].
   all: try (inversion H; subst; reflexivity).
+  all: try (inversion H; subst; clear H; pw; split; [f_equal; lia|lia]).
   all: try (int64v_step Hr; inversion H; subst; clear H; destruct EI as [-> EI]; pw; split; [f_equal; lia|lia]).
 Qed.
 
@@ -746,9 +748,11 @@ Proof.
   - destruct (binc_decInteger bd r) as [[[ui neg] iok]| |] eqn:EI; cbn [bind] in H; try discriminate.
     destruct iok; cbn [negb] in H; [|discriminate].
     destruct (binc_decInteger_ok bd r ui neg Hbd Hr EI) as [Hu Hsp]. rewrite Hsp. unfold f64_image.
-    destruct (decNegintPosintFloatNumberHelperInt64v ui neg false) as [i| |] eqn:E64; cbn [bind] in H; try discriminate.
-    apply Int64v_spec in E64; [|exact Hu]. destruct E64 as [-> E64]. inversion H; subst; clear H.
-    destruct neg; (split; [f_equal; lia|pw; lia]).
+    destruct neg; cbn [negb] in H.
+    + destruct (decNegintPosintFloatNumberHelperInt64v ui true false) as [i| |] eqn:E64; cbn [bind] in H; try discriminate.
+      apply Int64v_spec in E64; [|exact Hu]. destruct E64 as [-> E64]. inversion H; subst; clear H.
+      split; [f_equal; lia|pw; lia].
+    + inversion H; subst; clear H. split; [reflexivity|pw; lia].
 Qed.
 
 (* ---- all four binary formats ---- *)
